@@ -1,12 +1,13 @@
 #!/bin/bash
-# usage: seedbatch.sh <list file: "Cxx v TestName [pkgdir]" per line>  — verify + check each seed
+# usage: seedbatch.sh <list file: "Cxx v TestName [pkgdir]" per line> [out-prefix (default out_)] — verify + check each seed
+PFX=${2:-out_}
 while read p v t pkg; do
   [ -z "$p" ] && continue
   pkg=${pkg:-test}
-  d=/tmp/seed/out_$p
-  echo "######## $p$v"
+  d=/tmp/seed/$PFX$p
+  echo "######## $PFX$p$v"
   /verif/tools/seedverify.sh $d/$v.diff $d/${v}_demo_test.go $pkg "$t" 2>&1 | grep -E '^SUITE|^DEMO|RESULT' | tr '\n' ';'; echo
-  /verif/tools/seedcheck.sh $d/$v.diff > /tmp/seed/check_$p$v.txt 2>&1
-  grep -E 'violation:' /tmp/seed/check_$p$v.txt | sort -u | cut -c1-300 | head -5
-  grep -E 'DETECTED_BY|ERROR' /tmp/seed/check_$p$v.txt
+  /verif/tools/seedcheck.sh $d/$v.diff > /tmp/seed/check_$PFX$p$v.txt 2>&1
+  grep -E 'violation:' /tmp/seed/check_$PFX$p$v.txt | sort -u | cut -c1-300 | head -5
+  grep -E 'DETECTED_BY|ERROR' /tmp/seed/check_$PFX$p$v.txt
 done < "$1"
